@@ -1120,8 +1120,10 @@ class DAGExecution(BaseDAGExecution[P, RVDAG]):
         self._pre_call()
 
         # 2. Execute the scheduler
+        # the scheduler consumes the graph it is given: run on a copy so that a run that fails
+        # leaves this DAGExecution with its complete selection
         self.xn_dict, self.results, self.profiles = self.dag.run_subgraph(
-            self.graph, self.results, *args
+            deepcopy(self.graph), self.results, *args
         )
 
         return self._post_call()
@@ -1156,7 +1158,7 @@ class AsyncDAGExecution(BaseDAGExecution[P, RVDAG]):
 
         # 2. Execute the scheduler
         self.xn_dict, self.results, self.profiles = await self.dag.run_subgraph(
-            self.graph, self.results, *args
+            deepcopy(self.graph), self.results, *args
         )
 
         return self._post_call()
